@@ -181,12 +181,9 @@ class MemTrigger(BaseTrigger):
         with self._cron_lock:
             current = self._last_cron_executions.get(condition_id)
 
-            # If we expect a specific last execution time and it doesn't match,
+            # If the stored value is not the one we expect (None = nothing stored yet),
             # it means someone else updated it
-            if (
-                expected_last_execution is not None
-                and current != expected_last_execution
-            ):
+            if current != expected_last_execution:
                 return False
 
             self._last_cron_executions[condition_id] = execution_time
